@@ -128,6 +128,10 @@ func (c *CtrlCloud) begin(api, eni, inst string, n4, n6 int, ips []string, mutat
 				f = Fault{Kind: FaultErrBefore}
 			}
 		}
+	} else if !c.Stopped && c.FailAPI[api] > 0 {
+		// a targeted read failure (the listing calls are not part of the positional plan)
+		c.FailAPI[api]--
+		f = Fault{Kind: FaultErrBefore}
 	}
 	if f.Kind == "" {
 		f.Kind = FaultNone
@@ -365,7 +369,12 @@ func (c *CtrlCloud) DescribeNetworkInterfaceV2(ctx context.Context, opts ...clie
 	if o.Tags != nil {
 		tags = *o.Tags
 	}
-	call, _ := c.begin("DescribeNetworkInterface", "", inst, 0, 0, ids, false)
+	call, f := c.begin("DescribeNetworkInterface", "", inst, 0, 0, ids, false)
+	if f.Kind == FaultErrBefore {
+		err := c.code("Throttling")
+		c.end(call, nil, err)
+		return nil, err
+	}
 	out := c.describe(ids, inst, typ, status, tags)
 	c.end(call, nil, nil)
 	return out, nil
